@@ -216,6 +216,9 @@ class JsonResource(Resource):
                 raise ValueError(f'Unknown feature {key} for object "{eclass}"')
             if feature.is_attribute:
                 eattributes.append((feature, value))
+                if feature.iD:
+                    # references to this object are written as its id
+                    self.uuid_dict[value] = inst
             else:
                 if feature.containment:
                     containments.append((feature, value))
